@@ -194,6 +194,12 @@ Section Selectors.
     | Panic => Panic
     end.
 
+  (* the part of selectPhantomImplHkdf after the id has been drawn: the network
+     whose id range contains id, at offset id - min *)
+  Definition locate_hkdf (idn : list (N * N * pnet)) (id : N) : sres phantom :=
+    finish_loop (match_loop (fun mn mx => (id <=? mx) && (mn <=? id))
+                            (fun mn p => addr_from_offset p (id - mn)) idn None).
+
   (* selectPhantomImplHkdf *)
   Definition select_impl_hkdf (seed : bytes) (subnets : list pnet) : sres phantom :=
     let '(idn, total) := id_nets subnets 0 in
@@ -203,9 +209,7 @@ Section Selectors.
       | RPanic => Panic
       | RErr => Err EEntropy
       | RFuel => Err EFuel
-      | ROk id _ =>
-        finish_loop (match_loop (fun mn mx => (id <=? mx) && (mn <=? id))
-                                (fun mn p => addr_from_offset p (id - mn)) idn None)
+      | ROk id _ => locate_hkdf idn id
       end.
 
   (* ---- legacy paths (client library versions 0 and 1) ---- *)
